@@ -85,7 +85,38 @@ func ZZC15Events() {
 	forms := make([]int, H)
 	for i := 0; i < H; i++ {
 		kinds[i] = zzEvKinds[(rot+i)%len(zzEvKinds)]
-		forms[i] = zzChoice("form", 5)
+		forms[i] = zzChoice("form", 7)
+	}
+	// forms 5 and 6: an anonymous or named parameter with the wrong type: the parser must reject the handler
+	for i, ek := range kinds {
+		if forms[i] < 5 {
+			continue
+		}
+		wrong := map[string]string{"num": "string", "string": "num"}[ek.types[0]]
+		name := "_"
+		if forms[i] == 6 {
+			name = ek.names[0]
+		}
+		bad := "on " + ek.name + " " + name + ":" + wrong
+		for j := 1; j < len(ek.types); j++ {
+			bad += " " + ek.names[j] + ":" + ek.types[j]
+		}
+		use := ""
+		for j := 1; j < len(ek.types); j++ {
+			use += " " + ek.names[j]
+		}
+		if forms[i] == 6 {
+			use += " " + name
+		}
+		bad += "\n    print 1" + use + "\nend\n"
+		berr := NewEvaluator(&zzPlat{}).Run(bad)
+		if berr == nil {
+			zzLog("C15 accepted: " + bad)
+		}
+		zzAssert(berr != nil, "C15: a handler whose parameter types do not match the event's payload (also for `_`) is rejected")
+		zzReach("bad-signature")
+		zzWitness("end-bad")
+		return
 	}
 	// globals named like the handlers' parameters: a parameter shadows them, it never overwrites them
 	src := "cnt := 0\nsum := 0\nk := \"gk\"\nx := 100\ny := 200\nt := 300\nid := \"gid\"\nval := \"gval\"\nprint \"top\" cnt sum\nprint k x y t id val\n"
